@@ -61,8 +61,8 @@ m("errdrop-writefieldname", "ERR-DROP", ["C19"], "break", TW,
   "\tif err := writeSymbol(*name, w.out); err != nil {\n\t\treturn err\n\t}\n\n\tsep := \":\"",
   "\twriteSymbol(*name, w.out)\n\n\tsep := \":\"", "writeFieldName", True, "write error discarded")
 m("errswap-readn-ioerror", "ERR-SWAP", ["C19", "C07", "C06"], "break", BS,
-  "\tif err != nil {\n\t\treturn nil, &IOError{err}\n\t}\n\n\treturn bs, nil",
-  "\tif err != nil {\n\t\treturn bs, nil\n\t}\n\n\treturn bs, nil", "readN", True, "I/O failure turned into success")
+  "\t\tif err != nil {\n\t\t\treturn nil, &IOError{err}\n\t\t}\n\n\t\tfilled = len(bs)",
+  "\t\tif err != nil {\n\t\t\treturn bs, nil\n\t\t}\n\n\t\tfilled = len(bs)", "readN", True, "I/O failure turned into success")
 m("errswap-tokenizer-read-continue", "ERR-SWAP", ["C19", "C07"], "break", TK,
   "\tc, err := t.in.ReadByte()\n\tif err == io.EOF {\n\t\treturn -1, nil\n\t}\n\tif err != nil {\n\t\treturn 0, &IOError{err}\n\t}",
   "\tc, err := t.in.ReadByte()\n\tif err != nil {\n\t\treturn -1, nil\n\t}", "tokenizer).read", False,
@@ -236,6 +236,119 @@ m("dangle-refactor-nested", "ORD-DANGLE", ["C07"], "refactor", TR,
 m("rearm-refactor-helper", "ORD-REARM", ["C12"], "refactor", BW,
   "\t\tw.bufs.push(&datagram{})\n\t\tw.lstb = NewSymbolTableBuilder(lst.Imports()...)\n",
   "\t\tnext := NewSymbolTableBuilder(lst.Imports()...)\n\t\tw.lstb = next\n\t\tw.bufs.push(&datagram{})\n", "", False, "re-arm statements reordered")
+
+
+# ---- NUM engine
+BT, DC, TS, PR = "ion/bits.go", "ion/decimal.go", "ion/timestamp.go", "cmd/ion-go/process.go"
+m("narrow-negative-sid", "NUM-NARROW", ["C04", "C13"], "break", BW,
+  "\tif tok.LocalSID < 0 {\n\t\treturn 0, &UsageError{api, \"symbol token without defined text or symbol id is invalid\"}\n\t}\n\treturn uint64(tok.LocalSID), nil",
+  "\treturn uint64(tok.LocalSID), nil", "resolveToken", True, "a negative LocalSID is encoded as a huge unsigned ID")
+m("narrow-parseint64-exponent", "NUM-NARROW", ["C13", "C14"], "break", DC,
+  "tmp, err := strconv.ParseInt(exp, 10, 32)", "tmp, err := strconv.ParseInt(exp, 10, 64)", "ParseDecimal", True,
+  "exponent parsed in 64 bits and narrowed to int32 without a range test")
+m("narrow-timestamp-field-bound", "NUM-NARROW", ["C03", "C13", "C15"], "break", BS,
+  "\t\tif val > 10000 {\n\t\t\t// No calendar field is larger than the UTC year of 9999-12-31T23:59-00:01.\n\t\t\treturn Timestamp{}, &SyntaxError{\"invalid timestamp - calendar field out of range\", b.pos - vlength}\n\t\t}\n",
+  "", "ReadTimestamp", False, "a VarUInt calendar field >= 2^63 wraps to a negative int")
+m("narrow-decodeint-sign-test", "NUM-NARROW", ["C17"], "break", UM,
+  "\t\tif *val < 0 || v.OverflowUint(uint64(*val)) {", "\t\tif v.OverflowUint(uint64(*val)) {", "decodeIntTo", True,
+  "a negative int is stored into an unsigned target wrapped")
+m("narrow-refactor-intlen-else", "NUM-NARROW", ["C04", "C13"], "refactor", BT,
+  "\tmag := uint64(n)\n\tif n < 0 {\n\t\tmag = uint64(-n)\n\t}\n\n\tlength := uintLen(mag)",
+  "\tvar mag uint64\n\tif n < 0 {\n\t\tmag = uint64(-n)\n\t} else {\n\t\tmag = uint64(n)\n\t}\n\n\tlength := uintLen(mag)", "", True,
+  "sign-magnitude spelled with if/else")
+m("narrow-refactor-sidbound-local", "NUM-NARROW", ["C13"], "refactor", "ion/symboltoken.go",
+  "\ttext, ok := symbolTable.FindByID(uint64(sid))", "\tusid := uint64(sid)\n\ttext, ok := symbolTable.FindByID(usid)", "", False, "conversion hoisted into a local")
+m("shift-drop-varuint-check", "NUM-SHIFT", ["C03", "C13"], "break", BS,
+  "\t\tif val > math.MaxUint64>>7 {\n\t\t\t// The next 7 bits would be shifted out of the 64 we have.\n\t\t\treturn 0, 0, &SyntaxError{\"varuint too large\", b.pos - length - 1}\n\t\t}\n",
+  "", "readVarUintLen", True, "a 10-byte VarUInt loses its top bits")
+m("shift-refactor-bound-spelling", "NUM-SHIFT", ["C03", "C13"], "refactor", BS,
+  "\t\tif val > math.MaxInt64>>7 {", "\t\tif val >= 1<<56 {", "", True, "the same bound written as a power of two")
+m("exp32-int32-fraction-digits", "NUM-EXP32", ["C14"], "break", DC,
+  "\t\tshifted := int64(exponent) - int64(len(fpart))\n\t\tif shifted < math.MinInt32 {\n\t\t\treturn nil, &ParseError{in, \"exponent out of range\"}\n\t\t}\n\t\texponent = int32(shifted)",
+  "\t\texponent -= int32(len(fpart))", "ParseDecimal", True, "exponent arithmetic back in int32")
+m("exp32-mul-int32", "NUM-EXP32", ["C14"], "break", DC,
+  "\tscale := int64(d.scale) + int64(o.scale)\n\tif scale > math.MaxInt32 || scale < math.MinInt32 {\n\t\tpanic(\"exponent out of bounds\")\n\t}\n\n\treturn &Decimal{\n\t\tn:     new(big.Int).Mul(d.n, o.n),\n\t\tscale: int32(scale),",
+  "\tscale := d.scale + o.scale\n\n\treturn &Decimal{\n\t\tn:     new(big.Int).Mul(d.n, o.n),\n\t\tscale: scale,", "(*Decimal).Mul", False,
+  "scales added in int32")
+m("exp32-refactor-mul-order", "NUM-EXP32", ["C14"], "refactor", DC,
+  "\tif scale > math.MaxInt32 || scale < math.MinInt32 {\n\t\tpanic(\"exponent out of bounds\")\n\t}\n\n\treturn &Decimal{\n\t\tn:     new(big.Int).Mul(d.n, o.n),",
+  "\tif scale < math.MinInt32 {\n\t\tpanic(\"exponent out of bounds\")\n\t}\n\tif scale > math.MaxInt32 {\n\t\tpanic(\"exponent out of bounds\")\n\t}\n\n\treturn &Decimal{\n\t\tn:     new(big.Int).Mul(d.n, o.n),", "", True,
+  "range test split in two")
+m("big-int64value-bitlen", "NUM-BIG", ["C13"], "break", RD,
+  "\tif bi.IsInt64() {\n\t\tval := bi.Int64()", "\tif bi.BitLen() <= 64 {\n\t\tval := bi.Int64()", "Int64Value", True,
+  "a 64-bit magnitude is extracted as a wrapped int64")
+m("big-round-bitlen", "NUM-BIG", ["C13", "C15"], "break", DC,
+  "\tif !rounded.IsInt64() {", "\tif rounded.BitLen() > 64 {", "round", True, "fraction coefficient extracted without IsInt64")
+m("big-refactor-positive", "NUM-BIG", ["C13"], "refactor", RD,
+  "\tif bi.IsInt64() {\n\t\tval := bi.Int64()\n\t\treturn &val, nil\n\t}\n\n\treturn nil, &UsageError{\"Reader.Int64Value\", \"value too large for an int64\"}",
+  "\tif !bi.IsInt64() {\n\t\treturn nil, &UsageError{\"Reader.Int64Value\", \"value too large for an int64\"}\n\t}\n\tval := bi.Int64()\n\treturn &val, nil", "", False,
+  "guard as early return")
+m("f32-range-instead-of-equality", "NUM-F32", ["C13"], "break", BW,
+  "\tif val == float64(float32(val)) {", "\tif math.Abs(val) <= math.MaxFloat32 {", "WriteFloat", True,
+  "float32 chosen by magnitude, not by losslessness")
+m("reflect-nan-instead-of-overflow", "NUM-REFLECT", ["C17"], "break", UM,
+  "\t\tif v.OverflowFloat(*val) {", "\t\tif *val != *val {", "decodeFloatTo", True, "float stored without the overflow test")
+m("nofloat-mul-through-float", "NUM-NOFLOAT", ["C14"], "break", DC,
+  "\t// a*10^x * b*10^y = (a*b) * 10^(x+y)\n", "\t// a*10^x * b*10^y = (a*b) * 10^(x+y)\n\tif f, _ := new(big.Float).SetInt(d.n).Float64(); f == 0 {\n\t\treturn d\n\t}\n", "(*Decimal).Mul", True,
+  "a float shortcut inside an exact operation")
+m("alloc-readn-unbounded-first", "NUM-ALLOC", ["C06"], "break", BS,
+  "\tfirst := n\n\tif first > readChunkSize {\n\t\tfirst = readChunkSize\n\t}\n", "\tfirst := n\n", "readN", True,
+  "the declared length sizes the first allocation")
+m("alloc-round-no-digit-guard", "NUM-ALLOC", ["C06"], "break", DC,
+  "\t\tif int(ud.scale) > digits {\n\t\t\t// The magnitude is below 0.1.\n\t\t\treturn 0, nil\n\t\t}\n", "\t\t_ = digits\n", "round", False,
+  "10^scale is built for any declared scale")
+m("alloc-refactor-readn-min", "NUM-ALLOC", ["C06"], "refactor", BS,
+  "\tfirst := n\n\tif first > readChunkSize {\n\t\tfirst = readChunkSize\n\t}\n", "\tfirst := uint64(readChunkSize)\n\tif n < first {\n\t\tfirst = n\n\t}\n", "", True,
+  "minimum computed the other way round")
+
+# ---- codec pairing / spec
+m("lenpay-timestamp-uintlen", "TAB-LENPAY", ["C01", "C04", "C15"], "break", BT,
+  "\t\t\tret += intLen(int64(ns))", "\t\t\tret += uintLen(uint64(ns))", "timestampLen", True,
+  "fraction coefficient measured as UInt, written as Int")
+m("lenpay-decimal-varuintlen", "TAB-LENPAY", ["C01", "C04"], "break", BW,
+  "\tvlength := varIntLen(int64(exp))", "\tvlength := varUintLen(uint64(exp))", "WriteDecimal", False,
+  "exponent measured as VarUInt, written as VarInt")
+m("lenpay-refactor-year-local", "TAB-LENPAY", ["C01", "C04", "C15"], "refactor", BT,
+  "\tb = appendVarUint(b, uint64(utc.dateTime.Year()))", "\tyear := utc.dateTime.Year()\n\tb = appendVarUint(b, uint64(year))", "", True,
+  "operand kept in a local")
+m("codec-timestamp-fraction-uint", "TAB-CODEC", ["C01", "C04", "C15"], "break", BT,
+  "\t\t\tb = appendInt(b, int64(ns))", "\t\t\tb = appendUint(b, uint64(ns))", "appendTimestamp", True,
+  "fraction coefficient written as UInt; Ion says Int")
+m("dateval-drop-minute", "TAB-DATEVAL", ["C15"], "break", TS,
+  "ts[3] != date.Hour() || ts[4] != date.Minute() || ts[5] != date.Second() {", "ts[3] != date.Hour() || ts[5] != date.Second() {", "minute", True,
+  "minute 60 is normalised into the next hour")
+m("dateval-drop-local-year", "TAB-DATEVAL", ["C15"], "break", TS,
+  "\t// The fields above are UTC, so they may name year 0 or 10000; the local year may not.\n\tif !isIonYear(date.Year()) {\n\t\treturn Timestamp{}, fmt.Errorf(\"ion: invalid timestamp\")\n\t}\n",
+  "", "year of the decoded timestamp", True, "the local year after applying the offset is unchecked")
+m("dateval-refactor-predicate-shape", "TAB-DATEVAL", ["C15"], "refactor", TS,
+  "\treturn year >= 1 && year <= 9999", "\tif year < 1 {\n\t\treturn false\n\t}\n\treturn year <= 9999", "", True,
+  "helper predicate written with an early return")
+
+# ---- text is authoritative / input primitives
+m("textauth-resolve-token-text", "OWN-TEXTAUTH", ["C01", "C04", "C05", "C11"], "break", BW,
+  "\t\treturn w.resolveFromSymbolTable(api, *tok.Text)", "\t\treturn w.resolve(api, *tok.Text)", "resolveToken", True,
+  "token text goes through the $n interpretation")
+m("textauth-sid-first", "OWN-TEXTAUTH", ["C01", "C05"], "break", BW,
+  "\tif tok.Text != nil {\n\t\treturn w.resolveFromSymbolTable(api, *tok.Text)\n\t}\n\tif tok.LocalSID < 0 {",
+  "\tif tok.LocalSID >= 0 {\n\t\treturn uint64(tok.LocalSID), nil\n\t}\n\tif tok.Text != nil {\n\t\treturn w.resolveFromSymbolTable(api, *tok.Text)\n\t}\n\tif tok.LocalSID < 0 {",
+  "LocalSID", True, "the source stream's SID wins over the text")
+m("textauth-string-fieldname-sid", "OWN-TEXTAUTH", ["C01", "C05"], "break", TR,
+  "\t\tif tok == tokenSymbol {\n\t\t\t// Only an unquoted identifier of the form $n is a symbol ID reference.",
+  "\t\tif tok != tokenSymbolQuoted {\n\t\t\t// Only an unquoted identifier of the form $n is a symbol ID reference.", "nextBeforeFieldName", False,
+  "a string field name \"$5\" is read as symbol 5")
+m("textauth-cmd-fromstring", "OWN-TEXTAUTH", ["C05", "C20"], "break", PR,
+  "\t\t\t\terr = p.out.WriteSymbol(*val)", "\t\t\t\tif val.Text != nil {\n\t\t\t\t\terr = p.out.WriteSymbolFromString(*val.Text)\n\t\t\t\t} else {\n\t\t\t\t\terr = p.out.WriteSymbol(*val)\n\t\t\t\t}", "process", True,
+  "the copy loop hands token text to the $n-interpreting string API")
+m("textauth-refactor-else", "OWN-TEXTAUTH", ["C01", "C04", "C05", "C11"], "refactor", BW,
+  "\tif tok.Text != nil {\n\t\treturn w.resolveFromSymbolTable(api, *tok.Text)\n\t}\n\tif tok.LocalSID < 0 {\n\t\treturn 0, &UsageError{api, \"symbol token without defined text or symbol id is invalid\"}\n\t}\n\treturn uint64(tok.LocalSID), nil",
+  "\tif tok.Text == nil {\n\t\tif tok.LocalSID < 0 {\n\t\t\treturn 0, &UsageError{api, \"symbol token without defined text or symbol id is invalid\"}\n\t\t}\n\t\treturn uint64(tok.LocalSID), nil\n\t}\n\ttext := *tok.Text\n\treturn w.resolveFromSymbolTable(api, text)",
+  "", True, "nil case first, text in a local")
+m("input-read-instead-of-readbyte", "OWN-INPUT", ["C19"], "break", BS,
+  "\tc, err := b.in.ReadByte()\n\tb.pos++", "\tvar one [1]byte\n\t_, err := b.in.Read(one[:])\n\tc := one[0]\n\tb.pos++", "bufio.Reader.Read", True,
+  "a chunk-dependent primitive on the input")
+m("input-peek-returned", "OWN-INPUT", ["C03", "C19"], "break", BS,
+  "\tfirst := n\n\tif first > readChunkSize {", "\tif n <= 16 {\n\t\tif bs, err := b.in.Peek(int(n)); err == nil {\n\t\t\tb.in.Discard(int(n))\n\t\t\tb.pos += n\n\t\t\treturn bs, nil\n\t\t}\n\t}\n\tfirst := n\n\tif first > readChunkSize {", "slice returned by Peek", True,
+  "bytes handed to the caller alias the read buffer")
 
 os.makedirs(os.path.dirname(os.path.abspath(__file__)), exist_ok=True)
 with open(os.path.join(os.path.dirname(os.path.abspath(__file__)), "core.json"), "w") as f:
